@@ -66,7 +66,7 @@ HARNESSES += [
 ] + [grow('pb2_p%d' % p, ('pb', 'pb'), False, 2, [sc2(p, 0, 2, **({'PROBE': 0} if p else {}))], scenarios_thorough=[sc2(p, 0, 2, ROUNDS=3, **({'PROBE': 0} if p else {}))], timeout=1800,
           tiers=(('quick', 'thorough') if p in (0, 2) else ('thorough',))) for p in (0, 1, 2, 3)] + [   # quick keeps the two pb2 queries that catch M1/M6 (p0) and M4/M5 (p2)
   # first block of 2 segments being published by T0 (grow_by(3) on an empty vector) while T1's grow_to_at_least(n<=3) only waits
-  grow('fb_wait', ('gb', 'gtalw'), False, 2, [sc2(0, 0, 4, MIND=3, MAXD=3, GTALN=n, FIRSTA=1) for n in (2, 3)], native_cflags=['-fno-sanitize=null,pointer-overflow']),
+  grow('fb_wait', ('gb', 'gtalw'), False, 1, [sc2(0, 0, 4, MIND=3, MAXD=3, GTALN=n, FIRSTA=1) for n in (2, 3)], K=3, native_cflags=['-fno-sanitize=null,pointer-overflow']),
   grow('fb_extend', ('gb', 'gtal'), False, 2, [sc2(0, 0, 4, MIND=3, MAXD=3, GTALN=4)], tiers=('thorough',), timeout=3600, native_cflags=['-fno-sanitize=null,pointer-overflow']),
   grow('pb3', ('pb', 'pb', 'pb'), False, 1, [sc2(p, 0, 3, **({'PROBE': 0} if p else {})) for p in (0, 1, 2)], tiers=('thorough',), timeout=3600),
   grow('gb_gb', ('gb', 'gb'), False, 1, [sc2(p, 0, 6, **({'PROBE': 0} if p else {})) for p in (0, 2)], tiers=('thorough',), timeout=3600),
